@@ -397,6 +397,164 @@ fn sweep() -> Result<(), String> {
     Ok(())
 }
 
+/// The static fact: a compiled filter can be shared between threads; with the feature `sync`, so can values.
+#[allow(dead_code)]
+fn static_facts() {
+    fn send_sync<T: Send + Sync>() {}
+    send_sync::<data::Filter>();
+    send_sync::<jaq_core::Lut<DataKind>>();
+    #[cfg(feature = "sync")]
+    send_sync::<Val>();
+}
+
+/// One isolated run: the outputs (at most `limit`) and the terminator, as text.
+fn run_text(filter: &data::Filter, vals: Vec<Val>, inputs: Vec<Val>, limit: usize) -> String {
+    let inputs: Box<dyn Iterator<Item = Result<Val, String>>> = Box::new(inputs.into_iter().map(Ok));
+    let runner = Runner::default();
+    let rc = RcIter::new(inputs);
+    let data = Data { runner: &runner, lut: &filter.lut, inputs: &rc };
+    let ctx = Ctx::<DataKind>::new(&data, Vars::new(vals));
+    let mut out = String::new();
+    let mut n = 0;
+    'outer: for x in data.inputs {
+        let Ok(x) = x else { break };
+        for y in filter.id.run((ctx.clone(), x)) {
+            if n >= limit {
+                out.push_str(" cut");
+                break 'outer;
+            }
+            n += 1;
+            match y {
+                Ok(v) => {
+                    out.push(' ');
+                    out.push_str(&val::to_sx(&v).to_string());
+                }
+                Err(e) => {
+                    out.push_str(" error:");
+                    match e.get_err() {
+                        Ok(e) => out.push_str(&val::to_sx(&e.into_val()).to_string()),
+                        Err(_) => out.push_str("exception"),
+                    }
+                    break 'outer;
+                }
+            }
+        }
+    }
+    out
+}
+
+/// `(threads ((FILTER ((name V)...) (INPUT...))...) T R LIMIT)`: every program is compiled once; then T threads run all
+/// the programs R times concurrently on the shared compiled filters (values are built inside the threads; with the
+/// feature `sync` the input values are shared, too), while one more thread keeps compiling the programs again.
+/// Every result is compared with the result of the isolated run made before.
+fn cmd_threads(args: &[Sx]) -> Result<Sx, String> {
+    let progs = args[0].list().ok_or("programs")?;
+    let t: usize = args[1].atom().ok_or("T")?.parse().map_err(|_| "T")?;
+    let r: usize = args[2].atom().ok_or("R")?.parse().map_err(|_| "R")?;
+    let limit: usize = args[3].atom().ok_or("limit")?.parse().map_err(|_| "limit")?;
+    struct Prog {
+        code: String,
+        names: Vec<String>,
+        vals: Vec<Sx>,
+        inputs: Vec<Sx>,
+        filter: data::Filter,
+        alone: String,
+    }
+    let mut ps = Vec::new();
+    let mut skipped = 0;
+    for p in progs {
+        let p = p.list().ok_or("program")?;
+        let code = String::from_utf8(p[0].bytes().ok_or("filter")?.to_vec()).map_err(|_| "utf8")?;
+        let mut names = Vec::new();
+        let mut vals = Vec::new();
+        for nv in p[1].list().ok_or("vars")? {
+            let nv = nv.list().ok_or("var")?;
+            names.push(nv[0].atom().ok_or("var name")?.to_string());
+            vals.push(nv[1].clone());
+        }
+        let inputs: Vec<Sx> = p[2].list().ok_or("inputs")?.to_vec();
+        let Ok(filter) = compile(&code, &names) else {
+            skipped += 1;
+            continue;
+        };
+        let mk = |xs: &[Sx]| xs.iter().map(val::from_sx).collect::<Result<Vec<Val>, _>>();
+        let alone = run_text(&filter, mk(&vals)?, mk(&inputs)?, limit);
+        // determinism: the same run again
+        let again = run_text(&filter, mk(&vals)?, mk(&inputs)?, limit);
+        if alone != again {
+            return Ok(l(vec![a("differ"), a("rerun"), s(code.as_bytes()), s(alone.as_bytes()), s(again.as_bytes())]));
+        }
+        ps.push(Prog { code, names, vals, inputs, filter, alone });
+    }
+    #[cfg(feature = "sync")]
+    let shared: Vec<(Vec<Val>, Vec<Val>)> = ps
+        .iter()
+        .map(|p| {
+            let mk = |xs: &[Sx]| xs.iter().map(|x| val::from_sx(x).unwrap()).collect::<Vec<Val>>();
+            (mk(&p.vals), mk(&p.inputs))
+        })
+        .collect();
+    let differ = std::sync::Mutex::new(None);
+    let stop = std::sync::atomic::AtomicBool::new(false);
+    std::thread::scope(|sc| {
+        // a thread that compiles while the others run
+        sc.spawn(|| {
+            while !stop.load(std::sync::atomic::Ordering::Relaxed) {
+                for p in &ps {
+                    let _ = compile(&p.code, &p.names);
+                }
+            }
+        });
+        let mut hs = Vec::new();
+        for ti in 0..t {
+            let ps = &ps;
+            let differ = &differ;
+            #[cfg(feature = "sync")]
+            let shared = &shared;
+            hs.push(sc.spawn(move || {
+                for ri in 0..r {
+                    // threads walk the programs in different orders
+                    for k in 0..ps.len() {
+                        let i = (k * (2 * ti + 1) + ri) % ps.len();
+                        let p = &ps[i];
+                        #[cfg(feature = "sync")]
+                        let (vals, inputs) = shared[i].clone();
+                        #[cfg(not(feature = "sync"))]
+                        let (vals, inputs) = {
+                            let mk = |xs: &[Sx]| xs.iter().map(|x| val::from_sx(x).unwrap()).collect::<Vec<Val>>();
+                            (mk(&p.vals), mk(&p.inputs))
+                        };
+                        let got = catch_unwind(AssertUnwindSafe(|| run_text(&p.filter, vals, inputs, limit)))
+                            .unwrap_or_else(|_| "panic".to_string());
+                        if got != p.alone {
+                            let mut d = differ.lock().unwrap();
+                            if d.is_none() {
+                                *d = Some((i, ti, ri, got));
+                            }
+                            return;
+                        }
+                    }
+                }
+            }));
+        }
+        for h in hs {
+            let _ = h.join();
+        }
+        stop.store(true, std::sync::atomic::Ordering::Relaxed);
+    });
+    let d = differ.into_inner().unwrap();
+    Ok(match d {
+        None => l(vec![a("same"), a(&ps.len().to_string()), a(&skipped.to_string()), a(if cfg!(feature = "sync") { "shared-values" } else { "own-values" })]),
+        Some((i, ti, ri, got)) => l(vec![
+            a("differ"),
+            a(&format!("thread{ti}-rep{ri}")),
+            s(ps[i].code.as_bytes()),
+            s(ps[i].alone.as_bytes()),
+            s(got.as_bytes()),
+        ]),
+    })
+}
+
 fn dispatch(cmd: &str, args: &[Sx]) -> Result<Sx, String> {
     match cmd {
         "run" => cmd_run(args),
@@ -407,6 +565,7 @@ fn dispatch(cmd: &str, args: &[Sx]) -> Result<Sx, String> {
         "tokens" => cmd_tokens(args),
         "diag" => cmd_diag(args),
         "decode" => cmd_decode(args),
+        "threads" => cmd_threads(args),
         _ => Err(format!("unknown command {cmd}")),
     }
 }
